@@ -14,6 +14,7 @@ import (
 	"verif/cluster"
 	"verif/core"
 	"verif/mon"
+	"verif/pager"
 	"verif/ref"
 )
 
@@ -298,4 +299,139 @@ func runC15Promote(c *core.Case, k int) {
 	}
 	c.Count("promote_recreated_on_new_primary", 1)
 	c.Distinct(fmt.Sprintf("promote/ps%d->%d/wal%v->%v", ps1, ps2, wal1, wal2))
+}
+
+func init() {
+	addFamily("C15", func(tier string) int {
+		if tier == "thorough" {
+			return 24
+		}
+		return 4
+	}, runC15Empty, " (+ a database that was created but never written (an application opened it and stopped, `touch`): deleting it succeeds like any other deletion - position one with the empty checksum, files and name gone on the primary and the replica - and the name can be used again, counters empty_*)")
+	chk := Registry["C15"]
+	base := chk.Floors
+	chk.Floors = func(tier string) map[string]int {
+		m := map[string]int{}
+		if base != nil {
+			for k, v := range base(tier) {
+				m[k] = v
+			}
+		}
+		m["empty_database_dropped"] = 2
+		return m
+	}
+}
+
+// runC15Empty: create a database file through the mount, write nothing, delete it.
+func runC15Empty(c *core.Case, k int) {
+	cl, err := cluster.New(c.Dir, []cluster.NodeOpts{{Candidate: true}, {}})
+	if err != nil {
+		c.Inconclusive(err.Error())
+		return
+	}
+	defer cl.Close()
+	if err := cl.Start(0); err != nil || cl.WaitPrimary(0, 10*time.Second) == nil {
+		c.Inconclusive("primary start")
+		return
+	}
+	if err := cl.Start(1); err != nil || !cl.WaitConnected(1, 10*time.Second) {
+		c.Inconclusive("replica start")
+		return
+	}
+	P, R := cl.Nodes[0], cl.Nodes[1]
+	led := newLedger()
+	var hist []string
+	detail := func() map[string]any {
+		return map[string]any{"history": hist, "primary": mon.PosOf(P.Node, "db").String(), "replica": mon.PosOf(R.Node, "db").String()}
+	}
+	f, err := P.Node.Create("db")
+	if err != nil {
+		c.Violate("C15/create-failed", "creating an empty database file: "+err.Error(), detail())
+		return
+	}
+	_ = f.Release()
+	hist = append(hist, "created, nothing written")
+	if k%2 == 1 {
+		// (an application that opened it, looked and closed)
+		if g, err := P.Node.Open("db"); err == nil {
+			_ = lockRetry(g, 5, pager.PendingByte, pager.PendingByte, false, 100)
+			_ = lockRetry(g, 5, pager.SharedFirst, pager.SharedFirst+pager.SharedSize-1, false, 100)
+			_ = g.Unlock(5, pager.PendingByte, pager.SharedFirst+pager.SharedSize-1)
+			g.Close(5)
+		}
+	}
+	if err := P.Node.Remove("db"); err != nil {
+		healthViolations(c, P.Node, "drop of a never-written database", detail())
+		if !c.Violated() {
+			c.Violate("C15/drop-failed", fmt.Sprintf("never-written: a database file that was created and never written cannot be deleted: %v", err), detail())
+		}
+		return
+	}
+	hist = append(hist, "deleted")
+	if pos := mon.PosOf(P.Node, "db"); pos.TXID != 1 || pos.Chk != ref.ChecksumFlag {
+		c.Violate("C15/drop-position", fmt.Sprintf("never-written: after the deletion the position is %s, expected transaction 1 with the empty checksum", pos), detail())
+		return
+	}
+	if !dropGone(c, P, "db", "never-written database", detail()) {
+		return
+	}
+	if ok, _, timedOut := cl.WaitConverged(P, R, []string{"db"}, 8, 30*time.Second); !ok {
+		if healthViolations(c, R.Node, "tombstone of a never-written database", detail()) {
+			return
+		}
+		if timedOut {
+			c.Inconclusive("convergence watchdog")
+			return
+		}
+		c.Violate("C15/drop-not-replicated", fmt.Sprintf("never-written: the replica is at %s, the primary at %s", mon.PosOf(R.Node, "db"), mon.PosOf(P.Node, "db")), detail())
+		return
+	}
+	if healthViolations(c, R.Node, "tombstone of a never-written database", detail()) || !dropGone(c, R, "db", "never-written database, replica", detail()) {
+		return
+	}
+	c.Count("empty_database_dropped", 1)
+	// the name is used again, with some page size
+	ps := []uint32{1024, 4096, 512, 8192}[k%4]
+	w, err := newWriter(P.Node, "db", ps, k%3 == 0, "delete", nil, c.SubRng("w"), led, 1)
+	if err != nil {
+		c.Violate("C15/writer", err.Error(), detail())
+		return
+	}
+	defer w.close()
+	w.d.BusyRetries = 5000
+	if err := w.ensure(uint32(3 + c.Rng.IntN(5))); err != nil {
+		healthViolations(c, P.Node, "recreate", detail())
+		if !c.Violated() {
+			c.Violate("C15/recreate-failed", fmt.Sprintf("never-written: creating the database after the deletion (page size %d) failed: %v", ps, err), detail())
+		}
+		return
+	}
+	if _, err := w.txn(2); err != nil {
+		c.Violate("C15/write-failed", err.Error(), detail())
+		return
+	}
+	hist = append(hist, fmt.Sprintf("recreated with page size %d", ps))
+	if pos := mon.PosOf(P.Node, "db"); pos.TXID < 2 {
+		c.Violate("C15/txid-sequence-restarted", fmt.Sprintf("the recreated database is at %s: the sequence did not continue after the tombstone", pos), detail())
+		return
+	}
+	ok, _, timedOut := cl.WaitConverged(P, R, []string{"db"}, 8, 30*time.Second)
+	if healthViolations(c, R.Node, "after the recreation", detail()) {
+		return
+	}
+	if timedOut {
+		c.Inconclusive("convergence watchdog")
+		return
+	}
+	if !ok {
+		c.Violate("C15/recreated-db-not-replicated", fmt.Sprintf("never-written: the replica is at %s, the primary at %s", mon.PosOf(R.Node, "db"), mon.PosOf(P.Node, "db")), detail())
+		return
+	}
+	res, err := mountRead(c, R.Node, "db", 808)
+	if err != nil {
+		c.Violate("C15/replica-read-error", err.Error(), detail())
+		return
+	}
+	judgeReplicaRead(c, led, R.Name, "db", res, "recreated after the deletion of a never-written database", detail())
+	c.Distinct(fmt.Sprintf("never-written/ps%d/opened%v", ps, k%2 == 1))
 }
